@@ -183,7 +183,12 @@ def run_corpora(prop: str, run, jobs: int | None = None) -> None:
     root = os.path.dirname(os.path.dirname(os.path.abspath(__file__)))
     seeded = sorted(os.path.join(root, "seeded", x) for x in os.listdir(os.path.join(root, "seeded")) if x.startswith(prop + "-")) if os.path.isdir(os.path.join(root, "seeded")) else []
     benign = sorted(os.path.join(root, "benign", x) for x in os.listdir(os.path.join(root, "benign")) if os.path.isdir(os.path.join(root, "benign", x))) if os.path.isdir(os.path.join(root, "benign")) else []
-    work = [(prop, "seeded", d) for d in seeded if os.path.exists(os.path.join(d, "patch.diff"))] + [(prop, "benign", d) for d in benign if os.path.exists(os.path.join(d, "patch.diff"))]
+    # refactorings that rename / inline / move an anchor the rules locate by name: the designed answer is ANALYSIS-ERROR (exit 2), and the
+    # corpus checks that it is never a VIOLATION
+    unf_root = os.path.join(root, "benign_unfollowed")
+    unfollowed = sorted(os.path.join(unf_root, x) for x in os.listdir(unf_root) if os.path.isdir(os.path.join(unf_root, x))) if os.path.isdir(unf_root) else []
+    work = [(prop, "seeded", d) for d in seeded if os.path.exists(os.path.join(d, "patch.diff"))] + [(prop, "benign", d) for d in benign if os.path.exists(os.path.join(d, "patch.diff"))] \
+        + [(prop, "unfollowed", d) for d in unfollowed if os.path.exists(os.path.join(d, "patch.diff"))]
     if not work:
         return
     base = {(f.rule, f.function, f.statement) for f in run.findings}
@@ -204,7 +209,7 @@ def run_corpora(prop: str, run, jobs: int | None = None) -> None:
             continue
         if kind == "seeded":
             stats["seeded"] += 1
-            hit = status == "analysis-error" or (status == "ok" and any((f[0], f[1], f[2]) not in base and f[0].startswith(prop) for f in payload))
+            hit = status == "ok" and any((f[0], f[1], f[2]) not in base and f[0].startswith(prop) for f in payload)  # an analysis error is not a report
             if status == "crash":
                 problems.append(f"seeded {name}: engine crashed: {payload}")
             elif hit:
@@ -212,6 +217,18 @@ def run_corpora(prop: str, run, jobs: int | None = None) -> None:
             elif name not in honest:
                 problems.append(f"seeded change {name} is no longer reported by the rules of {prop}")
             run.ob(f"{prop}.corpus.seeded-reported", name, bool(hit) or name in honest, honest_miss=name in honest)
+        elif kind == "unfollowed":
+            stats["unfollowed"] = stats.get("unfollowed", 0) + 1
+            if status == "crash":
+                problems.append(f"unfollowed refactoring {name}: engine crashed: {payload[:200]}")
+            elif status == "ok":
+                extra = [f for f in payload if (f[0], f[1], f[2]) not in base and (f[0], f[1]) not in base_rf]
+                if extra:
+                    problems.append(f"rule alarms (VIOLATION instead of analysis error) on refactoring {name}: {[(f[0], f[1].split(':')[-1], f[3][:80]) for f in extra[:2]]}")
+                run.ob(f"{prop}.corpus.unfollowed-never-a-violation", name, not extra)
+            else:
+                stats["unfollowed_exit2"] = stats.get("unfollowed_exit2", 0) + 1
+                run.ob(f"{prop}.corpus.unfollowed-never-a-violation", name, True, answered="analysis-error")
         else:
             stats["benign"] += 1
             if status in ("analysis-error", "crash"):
